@@ -43,13 +43,25 @@ CHECKS = {
   text="Bounded symbolic model checking of event emission: per write kind x {real, preview, repeated through an idempotency key} every bus.Monitor call is matched against a persisted log entry (transaction ids symbolic; for reverts which transaction is reverted and which reverts), previews and refused writes publish nothing, every persisted change is published at least once.",
   note="The monitor is a recording bus.Monitor; publish.NewMessage/watermill are not executed. Concurrent emission is not part of this check.",
   ref="DESIGN §5 C16"),
+ "C18": dict(
+  text="Bounded symbolic model checking of v2.ProcessBulk against a recording backend: bulks of 1..3 elements, the action of each element (four known, one unknown) and the error class enumerated, success/failure of each element and continueOnFailure as solver variables; executed calls (order, idempotency keys), one result per processed element at its position with the matching type, early stop and the failure signal are compared with the in-order reference.",
+  note="Element payloads are concrete well-formed JSON decoded by the JSON model; the inputs are Booleans and small choices, so the engine's forking does the exploration and the solver decides feasibility and the final formulas. bulkHandler's HTTP plumbing is not executed.",
+  ref="DESIGN §5 C18"),
+ "C19": dict(
+  text="Solver verdict for the middleware: api.ReadOnly wrapped around a flag-setting handler is executed with the request method as an arbitrary byte string of length 0..8; the handler is reached iff the method is GET, HEAD or OPTIONS (z3 supplies an offending method otherwise). Complemented by structural SSA checks (not solver verdicts): api.NewRouter installs ReadOnly on the root mux under the readOnly flag before any route, and no handler registered under GET/HEAD/OPTIONS or an any-method registration in v1/v2 reaches CreateTransaction/RevertTransaction/SaveMeta/DeleteMetadata in the call graph.",
+  note="chi's matcher and third-party middlewares are not executed; the structural layers are a syntactic over-approximation.",
+  ref="DESIGN §5 C19"),
+ "C20": dict(
+  text="Bounded symbolic model checking of the filter-to-SQL builders: for 16 (listing, key, operator) cases the client text — as value, and as the bracketed part of metadata[...] / balance[...] keys — is an arbitrary byte string of length 0..3 (thorough 4); the real accountQueryContext, transactionQueryContext, the matcher closures of GetAggregatedBalances and logsQueryBuilder and filterAccountAddress* build the clause, which must tokenise (SQL token kinds, plus JSON/jsonpath token kinds inside literals) exactly like the clause for a harmless string of the same shape, unless the request is rejected.",
+  note="bun's escaping of bound arguments is a library contract and not encoded; backslash is assumed literal inside SQL quotes (standard_conforming_strings). The scanner in the harness is the oracle.",
+  ref="DESIGN §5 C20"),
 }
 
 NA = {
  "C04": "the projection of logs into balances/volumes is PL/pgSQL executed by PostgreSQL; there is no Go code to encode and no PostgreSQL in the sandbox (DESIGN §6)",
 }
 
-PENDING = {'C02': 'check under construction in this session (engine built; harness not yet registered) — listed here until its check runs clean', 'C05': 'check under construction in this session (engine built; harness not yet registered) — listed here until its check runs clean', 'C06': 'check under construction in this session (engine built; harness not yet registered) — listed here until its check runs clean', 'C07': 'check under construction in this session (engine built; harness not yet registered) — listed here until its check runs clean', 'C11': 'check under construction in this session (engine built; harness not yet registered) — listed here until its check runs clean', 'C15': 'check under construction in this session (engine built; harness not yet registered) — listed here until its check runs clean', 'C17': 'check under construction in this session (engine built; harness not yet registered) — listed here until its check runs clean', 'C18': 'check under construction in this session (engine built; harness not yet registered) — listed here until its check runs clean', 'C19': 'check under construction in this session (engine built; harness not yet registered) — listed here until its check runs clean', 'C20': 'check under construction in this session (engine built; harness not yet registered) — listed here until its check runs clean'}
+PENDING = {'C02': 'check under construction in this session (engine built; harness not yet registered) — listed here until its check runs clean', 'C05': 'check under construction in this session (engine built; harness not yet registered) — listed here until its check runs clean', 'C06': 'check under construction in this session (engine built; harness not yet registered) — listed here until its check runs clean', 'C07': 'check under construction in this session (engine built; harness not yet registered) — listed here until its check runs clean', 'C11': 'check under construction in this session (engine built; harness not yet registered) — listed here until its check runs clean', 'C15': 'check under construction in this session (engine built; harness not yet registered) — listed here until its check runs clean', 'C17': 'check under construction in this session (engine built; harness not yet registered) — listed here until its check runs clean', }
 
 def main():
     checks = []
